@@ -105,7 +105,7 @@ def mutants_of(path: Path, rel: str, enums: dict):
             if sib:
                 i = enums[n.value.id].index(n.attr)
                 add("ENUM", n, f"{n.value.id}.{sib[i % len(sib)]}")
-        if isinstance(n, ast.Expr) and isinstance(n.value, ast.Call):
+        if isinstance(n, ast.Expr) and isinstance(n.value, ast.Call) and ast.unparse(n.value.func).split(".")[0] not in ("logger", "logging"):
             add("DEL_CALL", n, "pass")
         if isinstance(n, (ast.Assign, ast.AugAssign)) and not isinstance(parents.get(id(n)), (ast.ClassDef, ast.Module)):
             tg = n.targets[0] if isinstance(n, ast.Assign) else n.target
@@ -133,6 +133,7 @@ def main():
     ap.add_argument("--max", type=int, default=400)
     ap.add_argument("--jobs", type=int, default=4)
     ap.add_argument("--seed", type=int, default=1)
+    ap.add_argument("--skip", type=int, default=0, help="leave out the first N mutants of the shuffled list (continue an earlier scan with the same seed)")
     ap.add_argument("--verif", default=str(Path(__file__).resolve().parent.parent))
     ap.add_argument("--kinds", nargs="*", default=None)
     a = ap.parse_args()
@@ -156,7 +157,7 @@ def main():
         allm = [m for m in allm if m["kind"] in a.kinds]
     rnd = random.Random(a.seed)
     rnd.shuffle(allm)
-    chosen = allm[: a.max]
+    chosen = allm[a.skip: a.skip + a.max]
     print(f"{len(allm)} candidate mutants in {len(a.files)} files, {len(chosen)} sampled", flush=True)
     res_path = out / "results.jsonl"
     done = set()
